@@ -402,6 +402,7 @@ def prog_rtp(rng):
         ops.append(f"push RawPDU {hexs(rb(rng, rng.choice([1, 2, 3, 4, 160, rng.randint(1, 40)])))}")
     csrc, ext = [], []
     ext_on = False
+    profile = 0
     for _ in range(rng.randint(0, 14)):
         k = rng.random()
         if k < 0.2 and len(csrc) < 15:
@@ -417,11 +418,14 @@ def prog_rtp(rng):
             ext.append(v); ext_on = True; ops.append(f"set 0 add_extension_data {v}")
         elif k < 0.55:
             v = rng.choice(ext) if ext and rng.random() < 0.8 else u(rng, 32)
+            ops.append(f"set 0 remove_extension_data {v}")
             if ext_on and v in ext:
                 ext.remove(v)
                 if not ext:
                     ext_on = False
-            ops.append(f"set 0 remove_extension_data {v}")
+                    if profile:
+                        # the extension header is gone: a profile without a header is not a packet the wire can express
+                        ops.append("set 0 extension_profile 0"); profile = 0
         elif k < 0.6:
             # an extension header without data words
             if not ext:
@@ -429,7 +433,8 @@ def prog_rtp(rng):
         elif k < 0.65:
             # the profile belongs to the extension header: only meaningful while one is present
             if ext_on:
-                ops.append(f"set 0 extension_profile {u(rng, 16)}")
+                profile = u(rng, 16)
+                ops.append(f"set 0 extension_profile {profile}")
         elif k < 0.75:
             ops.append(f"set 0 padding_size {rng.choice([0, 1, 2, 3, 4, 8, 255, rng.randrange(256)])}")
         else:
@@ -437,8 +442,6 @@ def prog_rtp(rng):
                                    f"set 0 sequence_number {u(rng, 16)}", f"set 0 timestamp {u(rng, 32)}", f"set 0 ssrc_id {u(rng, 32)}"]))
         if rng.random() < 0.2:
             ops.append("show")
-    if not ext_on and rng.random() < 0.5:
-        pass
     return ops
 
 
